@@ -155,6 +155,18 @@ def faults(isa, rng):
             lst['extra_op'] = {'type': 'numeric', 'argument': {'size': 8, 'byte_align': True}}
     mut('count!=specific-operand-list', count_spec)
 
+    def macro_count_sets(d):
+        sname = next(iter(d['operand_sets']))
+        n = rng.choice([0, 2, 3])
+        d.setdefault('macros', {})['c19_mbad'] = [{'operands': {'count': n, 'operand_sets': {'list': [sname]}}, 'instructions': [next(iter(d['instructions']))]}]
+    mut('count!=operand-set-list/macro', macro_count_sets)
+
+    def macro_count_spec(d):
+        n = rng.choice([1, 3])
+        lst = {f'ms{k}': {'type': 'numeric', 'argument': {'size': 8, 'byte_align': True}} for k in range(2)}
+        d.setdefault('macros', {})['c19_mbad'] = [{'operands': {'count': n, 'specific_operands': {'only': {'list': lst}}}, 'instructions': [next(iter(d['instructions']))]}]
+    mut('count!=specific-operand-list/macro', macro_count_spec)
+
     def all_operands(d):
         for sname, sc in d.get('operand_sets', {}).items():
             for oid, oc in sc['operand_values'].items():
@@ -294,7 +306,7 @@ class C19(core.Check):
     required_buckets = {b: 2 for b in [
         'base:accepted', 'remove:general', 'remove:instructions', 'remove:operand_sets', 'keyword:mnemonic',
         'keyword:mnemonic-function-name', 'keyword:register', 'keyword:macro', 'macro-named-like-instruction',
-        'undeclared-operand-set', 'count!=operand-set-list', 'count!=specific-operand-list', 'undeclared-register-in-operand',
+        'undeclared-operand-set', 'count!=operand-set-list', 'count!=specific-operand-list', 'count!=operand-set-list/macro', 'count!=specific-operand-list/macro', 'undeclared-register-in-operand',
         'inverted-range:numeric_bytecode', 'inverted-range:relative_address', 'inverted-range:relative_address/zero-bound',
         'inverted-range:numeric_bytecode/zero-bound', 'zone:inverted', 'zone:beyond-address-width',
         'origin-below-redefined-GLOBAL', 'instruction-without-bytecode', 'variant-without-bytecode', 'unknown-operand-type',
